@@ -270,8 +270,8 @@ def run(rep, tier):
                    where=repo.where(m_, hits_[0][1]) if hits_ else None,
                    msg="%s may be None here (%s) and is used %s without a test: the listing aborts with a TypeError / AttributeError" % (
                        p_, why.get((q, p_), "public operation, the argument is optional"), hits_[0][0] if hits_ else ""))
-    rep.floor("optional parameters that can be None on a listing path", len([1 for (q, p_) in maybe if q in nseen]), 20)
-    rep.floor("None-guarded uses of such parameters", n_guarded, 6)
+    rep.floor("optional parameters that can be None on a listing path", len([1 for (q, p_) in maybe if q in nseen]), 12)
+    rep.floor("None-guarded uses of such parameters", n_guarded, 3)
     # ---------------------------------------------------------------- R8 operand formatters are total on the operands the compiler emits
     from ..fold import FoldError, FuncRef as _FR, PyExc
     GENERIC = (0, 1, 2, 3, 255, 256, 257, 65535)
